@@ -9,7 +9,7 @@ RULE = ('every sequence of reports reaching one or two attempts of a job through
         'moving clock; Hypothesis-generated sequences of up to 40 reports (the enumeration of the alphabet is by generated search, '
         'not exhaustive). After every op, comparing each attempt row before/after: billed >= 0; billed <= end - start once ended; '
         'billed does not decrease unless the end is set/corrected earlier or the reason is activation_timeout; start never moves later; '
-        'once a reason is set, (end, reason) only change to an earlier end. Non-trivial: an attempt receives >= 3 effective updates '
+        'once a reason is set, (end, reason) only change to an earlier end; after a report that marks an activation timeout every attempt on that instance is billed 0. Non-trivial: an attempt receives >= 3 effective updates '
         'including one after it has an end.')
 ASSUMPTIONS = ['serializable at transaction granularity on minimysql', 'observed per op (each op issues at most one UPDATE per attempt row)']
 TRUSTED = ['vlib/minimysql trigger semantics (BEFORE UPDATE may rewrite NEW)', 'vlib/batchsim']
@@ -27,7 +27,12 @@ def step(w, prev, cur, op, res):
                 w.att_after_end.add(k)
         elif p is not None and p['end_time'] is not None and op[0] in ('billing', 'complete', 'started', 'unschedule', 'deactivate'):
             w.att_after_end.add(k)
-    return O.check_attempt_monotone(prev, cur)
+    # the statement's exceptions are about the *report*: a deactivation that marks an activation timeout (instance never activated)
+    timeout_instance = res.get('instance') if (op[0] == 'deactivate' and res.get('ok') and res.get('reason') == 'activation_timeout') else None
+    if timeout_instance is not None:
+        w.saw_timeout_with_attempts = getattr(w, 'saw_timeout_with_attempts', False) or any(
+            a['instance_name'] == timeout_instance for a in cur.attempts.values())
+    return O.check_attempt_monotone(prev, cur, timeout_instance)
 
 
 def extra(w):
@@ -37,6 +42,8 @@ def extra(w):
         out.add('attempt_with_3_updates')
     if getattr(w, 'att_after_end', None):
         out.add('report_after_end')
+    if getattr(w, 'saw_timeout_with_attempts', False):
+        out.add('activation_timeout_with_attempts')
     return out
 
 
